@@ -332,3 +332,11 @@ Proof.
   - simpl in Hx. lra.
   - destruct (Prim2B y); try discriminate; reflexivity.
 Qed.
+Lemma Bminus_nonnan_fin (a b : bfloat) : is_finite a = true -> is_finite b = true ->
+  is_nan (Bminus mode_NE a b) = false.
+Proof.
+  intros Fa Fb. pose proof (Bminus_correct prec emax Hprec Hmax mode_NE a b Fa Fb) as C.
+  destruct (Rlt_bool _ _).
+  - destruct C as [_ [Cf _]]. destruct (Bminus mode_NE a b); try discriminate; reflexivity.
+  - destruct C as [C _]. unfold binary_overflow in C. simpl in C. apply B2SF_infinity in C. rewrite C. reflexivity.
+Qed.
